@@ -117,18 +117,17 @@ def lastArgWith (needle : Str) : Nat → List Str → Option Nat → Option Nat
   | i, a :: as, acc => lastArgWith needle (i + 1) as (if isInfix needle a then some i else acc)
 
 /-- The verdict of `_is_return_relative_path`'s indexed-repeat part for the occurrence `whole[start:end]` of `${name}`:
-`some true` = absolute by design, `some false` = relative allowed; `none` = the argument text contains a newline, where
-`RE_FUNCTION_ARGS` (`.` does not match a newline) does not see the argument list the way it is modelled here. -/
+`some true` = absolute by design, `some false` = relative allowed.  `RE_FUNCTION_ARGS` has `re.DOTALL` since 9564302, so its
+group 1 is the whole argument text also when that spans several lines; the result is never `none` (the `Option` is kept
+for the callers' sake). -/
 def indexedArgAt (whole : Str) (start end_ : Nat) (name : Str) : Option Bool :=
   match (indexedRepeatMatches (whole.length + 1) 0 whole).find? fun (a, b, _) => a ≤ start && end_ ≤ b with
   | none => some false
   | some (_, _, args) =>
-    if args.contains '\n' then none
-    else
-      let needle := '$' :: '{' :: name ++ ['}']
-      match lastArgWith needle 0 (splitOnChar ',' args) none with
-      | some i => some (i == 0 || i == 1 || i == 3 || i == 5)
-      | none => some true
+    let needle := '$' :: '{' :: name ++ ['}']
+    match lastArgWith needle 0 (splitOnChar ',' args) none with
+    | some i => some (i == 0 || i == 1 || i == 3 || i == 5)
+    | none => some true
 
 inductive TextOut where
   | ok (s : Str)
